@@ -227,8 +227,8 @@ def h_fl_ids(n_paths):
         gi = Obj(chr_id="chr1", gene_strands={"G": "+"}, empty=lambda: False, all_isoforms_introns={"REF1": chains[0]}, isoform_strands={"REF1": "+"},
                  gene_id_map={"REF1": "G"}, all_isoforms_exons={"REF1": [(1, 10), (31, 40), (61, 100)]}, other_features={"REF1": []},
                  sources={"REF1": "x", "G": "x"})
-        old = gbmc.GraphBasedModelConstructor.detected_known_isoforms
-        gbmc.GraphBasedModelConstructor.detected_known_isoforms = set()
+        old = flblock.get_reported()
+        flblock.set_reported(set())
         try:
             c = flblock.make_constructor(seq, flblock.default_params("auto"), gene_info=gi, known_introns=chains[0], reference_gene="G")
             c.profile_constructor = Obj(construct_profiles=lambda exons, polya, cage: exons)
@@ -243,7 +243,7 @@ def h_fl_ids(n_paths):
             call(g, c.construct_fl_isoforms)
             ids = [m.transcript_id for m in c.transcript_model_storage]
         finally:
-            gbmc.GraphBasedModelConstructor.detected_known_isoforms = old
+            flblock.set_reported(old)
         g.check(len(set(ids)) == len(ids), "transcript ids of one locus are pairwise distinct", detail={"ids": ids, "path_chains": paths})
     return fn
 
@@ -270,7 +270,8 @@ def h_printers_share_storage(g):
     dp.GFFPrinter = c10.RecordingPrinter
     dp.gffutils = Obj(FeatureDB=lambda path: FakeDB())
     c10.RecordingPrinter.seen = []
-    old = gbmc.GraphBasedModelConstructor.detected_known_isoforms
+    from props import flblock
+    old = flblock.get_reported()
     try:
         args = Obj(no_model_construction=False, reference="ref.fa", fai_file_name=None, resume=False, genedb="annotation.db" if with_db else None,
                    check_canonical=False, sqanti_output=False)
@@ -281,7 +282,7 @@ def h_printers_share_storage(g):
         call(g, dp.construct_models_in_parallel, sample, "chr1", dump, args, ["NA"])
     finally:
         dp.Fasta, dp.ReadAssignmentAggregator, dp.ReadAssignmentLoader, dp.GFFPrinter, dp.gffutils = saved
-        gbmc.GraphBasedModelConstructor.detected_known_isoforms = old
+        flblock.set_reported(old)
     seen = c10.RecordingPrinter.seen
     g.check(len(seen) == (2 if with_db else 1), "a run with an annotation builds the two GTF printers of the chromosome", detail={"printers": len(seen)})
     g.check(all(x[0] is seen[0][0] for x in seen), "both GTF printers of a chromosome issue exon ids from one shared table")
